@@ -54,6 +54,9 @@ def run(ctx):
         common.require_tlc_ok(ctx, gc, "GenCtl / Sound")
         go = common.tlc(ctx, "GenColl", cfg="GenColl_2", workers=8, timeout=6000)
         common.require_tlc_ok(ctx, go, "GenColl / Sound")
+        gj = common.tlc(ctx, "GenObj", cfg="GenObj_2", workers=8, timeout=6000, want_tags=("CASE", "DECLS"))
+        common.require_tlc_ok(ctx, gj, "GenObj / Sound")
+        gj_sim = common.tlc(ctx, "GenObj", cfg="GenObj_sim", workers=8, timeout=1500, simulate=1000, depth=6)["cases"]["CASE"] if not ctx.quick else []
         go_sim = common.tlc(ctx, "GenColl", cfg="GenColl_sim", workers=8, timeout=1500, simulate=1500, depth=6)["cases"]["CASE"] if not ctx.quick else []
         sim_rows = []
         if n_sim:
@@ -69,7 +72,7 @@ def run(ctx):
             return list(rows)
         buckets = {}
         for r in rows:
-            key = tuple(sorted(t for t in r["feats"] if t.startswith(("bin:", "un:", "call:", "index:", "slice-shape:", "stmt:", "grp:", "match:", "pat:", "arm:", "data:", "subject:", "ctl:", "ctx:", "jump", "cond:", "matchform:", "coll:", "m:", "f:", "listcomp", "dictcomp", "closure", "setidx:", "n:fstr", "n:tuple", "n:tfield"))))
+            key = tuple(sorted(t for t in r["feats"] if t.startswith(("bin:", "un:", "call:", "index:", "slice-shape:", "stmt:", "grp:", "match:", "pat:", "arm:", "data:", "subject:", "ctl:", "ctx:", "jump", "cond:", "matchform:", "coll:", "m:", "f:", "listcomp", "dictcomp", "closure", "setidx:", "n:fstr", "n:tuple", "n:tfield", "obj", "n:setfield", "n:ctord"))))
             buckets.setdefault(key, []).append(r)
         keys = sorted(buckets)
         rnd.shuffle(keys)
@@ -99,10 +102,13 @@ def run(ctx):
     cases += [pipeline.ctl_case(r, k) for k, r in enumerate(pick(crows, 300 if ctx.quick else 6000))]
     orows = go["cases"]["CASE"]
     universe += len(orows)
+    jrows = gj["cases"]["CASE"]
+    universe += len(jrows)
+    cases += [pipeline.obj_case(r, k, gj["cases"]["DECLS"][0]) for k, r in enumerate(pick(jrows, 160 if ctx.quick else 4030) + gj_sim)]
     cases += [pipeline.coll_case(r, k) for k, r in enumerate(pick(orows, 220 if ctx.quick else 5000) + go_sim)]
     with ctx.timed("self_check"):
         rej = pipeline.self_check_exprs(ctx, [c for c in cases if c["kind"] == "expr"])
-        rej.update(pipeline.self_check_progs(ctx, [c for c in cases if c["kind"] in ("prog", "coll")]))
+        rej.update(pipeline.self_check_progs(ctx, [c for c in cases if c["kind"] in ("prog", "coll", "obj")]))
         rej.update(pipeline.self_check_data(ctx, [c for c in cases if c["kind"] == "data"]))
         pipeline.self_check_ctl(ctx, [c for c in cases if c["kind"] == "ctl"])
     for cid, err in rej.items():
@@ -116,7 +122,7 @@ def run(ctx):
     for c, e in zip(cases, ev):
         sym = e["symptom"]
         stats[e["stage"] + (":" + sym if sym else ":ok")] = stats.get(e["stage"] + (":" + sym if sym else ":ok"), 0) + 1
-        src = " ; ".join(c["body"][-4:]) if c["kind"] in ("prog", "data") else (c["decls"] if c["kind"] == "ctl" else ("\n".join(c["body"]) if c["kind"] == "coll" else c["body"][-1]))
+        src = " ; ".join(c["body"][-4:]) if c["kind"] in ("prog", "data") else (c["decls"] if c["kind"] == "ctl" else ("\n".join(c["body"]) if c["kind"] in ("coll", "obj") else c["body"][-1]))
         if e["stage"] in ("ran", "abort"):
             n_ran += 1
             distinct.add(src)
